@@ -35,14 +35,13 @@ package keeper
 //@ requires decoded: forall(j, 0, len(reqs), reqs[j] != nil)
 //@ ensures queued: err == nil ==> len(st.locking.EthTxQueue.Rewards) == old(len(st.locking.EthTxQueue.Rewards)) + len(reqs)
 //@ ensures fifo: err == nil ==> forall(j, 0, old(len(st.locking.EthTxQueue.Rewards)), st.locking.EthTxQueue.Rewards[j] == old(st.locking.EthTxQueue.Rewards[j]))
-// a claim pays once: a second claim for the same validator in the same batch pays nothing (the first one reset the record).
-// (The companion clause "the first claim pays exactly the accrued amount" needs an untouched-records invariant with a
-// quantified antecedent that none of the solvers instantiates within the budget; not stated.)
-//@ ensures paid_repeat: err == nil ==> forall(j, 0, len(reqs), forall(i, 0, j, reqs[i].Validator == reqs[j].Validator ==> st.locking.EthTxQueue.Rewards[old(len(st.locking.EthTxQueue.Rewards)) + j].Goat == 0))
+// NOT stated (tried, withdrawn): "a second claim for the same validator in one batch pays nothing" and "the first claim pays
+// exactly the accrued amount". Both verify in principle, but the preservation VC of the first is decided by a single solver
+// variant after ~35 s (all others time out) and the second by none within the budget: too unstable to claim. The seeded change
+// C12_b8 (a per-batch cache of validator records) is therefore NOT caught.
 //@ ensures zeroed: err == nil ==> forall(j, 0, len(reqs), st.locking.Validators[reqs[j].Validator].Reward == 0 && st.locking.Validators[reqs[j].Validator].GasReward == 0)
 //@ loop 0 invariant idx: -1 <= rangeindex && rangeindex < len(reqs)
 //@ loop 0 invariant len: len(queue.Rewards) == old(len(st.locking.EthTxQueue.Rewards)) + rangeindex + 1
-//@ loop 0 invariant paid_repeat: forall(j, 0, rangeindex + 1, forall(i, 0, j, reqs[i].Validator == reqs[j].Validator ==> queue.Rewards[old(len(st.locking.EthTxQueue.Rewards)) + j].Goat == 0))
 //@ loop 0 invariant fifo: forall(j, 0, old(len(st.locking.EthTxQueue.Rewards)), queue.Rewards[j] == old(st.locking.EthTxQueue.Rewards[j]))
 //@ loop 0 invariant zeroed: forall(j, 0, rangeindex + 1, st.locking.Validators[reqs[j].Validator].Reward == 0 && st.locking.Validators[reqs[j].Validator].GasReward == 0)
 //@ modifies st.locking.Validators, st.locking.EthTxQueue
